@@ -127,7 +127,7 @@ func mutate(r *rng, f string, doc []byte, other []byte) []byte {
 }
 
 func suiteTotality(R *runner, r *rng) {
-	R.rule("totality: every reader (6 readers x option values incl. SSA callbacks nil / partly set, and the extension-dispatching opener) on valid documents of every format, on structure-aware mutations / truncations / splices of them (format keywords inserted, lines deleted, fixed-width fields overwritten), on documents of the wrong format and on arbitrary bytes, under recover() and a 5 s watchdog; every writer on cue lists assembled from the public types with every optional part (metadata, maps, styles, regions, inline attributes, lines, runs) possibly absent, map keys differing from the element identifiers, nil map elements, nil elements inside Items (same bytes as without them) and hostile text (leading combining marks, control characters, non-BMP, invalid UTF-8); oracle: no panic, no hang; non-trivial = the call returned a value rather than an error")
+	R.rule("totality: every reader (6 readers x option values incl. SSA callbacks nil / partly set, and the extension-dispatching opener) on valid documents of every format, on structure-aware mutations / truncations / splices of them (format keywords inserted, lines deleted, fixed-width fields overwritten), on documents of the wrong format and on arbitrary bytes, under recover() and a 15 s watchdog; every writer on cue lists assembled from the public types with every optional part (metadata, maps, styles, regions, inline attributes, lines, runs) possibly absent, map keys differing from the element identifiers, nil map elements, nil elements inside Items (same bytes as without them) and hostile text (leading combining marks, control characters, non-BMP, invalid UTF-8); oracle: no panic, no hang; non-trivial = the call returned a value rather than an error")
 	docs := sampleDocs(r, 3, false)
 	docs = append(docs, tsSampleDocs(r)...)
 	readers := allReaders()
@@ -139,9 +139,19 @@ func suiteTotality(R *runner, r *rng) {
 	if R.tier == "thorough" {
 		N = 60000
 	}
+	// a reader that did not return keeps its goroutine spinning: after two hangs of one reader no more input is fed to it
+	// in this run (the hangs are reported; piling up spinning goroutines would only slow everything else down)
+	hangs := map[string]int{}
 	run := func(rd readerEntry, data []byte, group, desc string) {
+		if hangs[rd.name] >= 2 {
+			R.count("total.skipped_after_hang." + rd.name)
+			return
+		}
 		var err error
-		res := guarded(func() { err = rd.read(data) }, 5*time.Second)
+		res := guarded(func() { err = rd.read(data) }, 15*time.Second)
+		if res == "HANG" {
+			hangs[rd.name]++
+		}
 		o := &obs{Suite: "total", Group: group, NoModel: true, NT: res == "" && err == nil, Input: fmt.Sprintf("%s %s %s", rd.name, desc, hashBytes(data)),
 			Human: map[string]interface{}{"reader": rd.name, "input": desc, "len": len(data)}}
 		if res != "" && strings.Contains(res, "[inside the third-party demultiplexer]") {
@@ -288,7 +298,7 @@ func suiteTotality(R *runner, r *rng) {
 		path := filepath.Join(dir, fmt.Sprintf("f%d%s", c, ext))
 		os.WriteFile(path, data, 0o644)
 		var err error
-		res := guarded(func() { _, err = astisub.OpenFile(path) }, 5*time.Second)
+		res := guarded(func() { _, err = astisub.OpenFile(path) }, 15*time.Second)
 		o := &obs{Suite: "total", Group: "total.open", NoModel: true, NT: res == "" && err == nil, Input: fmt.Sprintf("open %s %s", ext, hashBytes(data)), Human: map[string]interface{}{"ext": ext, "source_format": d.format, "len": len(data)}}
 		if res != "" {
 			o.Oracle, o.Sig = "OpenFile("+ext+"): "+res, "total-open"+siteOf(res)
@@ -308,7 +318,7 @@ func suiteTotality(R *runner, r *rng) {
 		s := mk()
 		var buf bytes.Buffer
 		var err error
-		res := guarded(func() { err = f.write(s, &buf) }, 5*time.Second)
+		res := guarded(func() { err = f.write(s, &buf) }, 15*time.Second)
 		o := &obs{Suite: "total", Group: "total.write." + f.name, NoModel: true, NT: res == "" && err == nil, Input: fmt.Sprintf("write %s seed %d", f.name, seed),
 			Human: map[string]interface{}{"writer": f.name, "metadata_nil": s.Metadata == nil, "styles_nil": s.Styles == nil, "regions_nil": s.Regions == nil, "cues": len(s.Items), "list": describeRich(s)}}
 		if res != "" {
